@@ -44,7 +44,10 @@ class EventWrapper:
         self._event = trio.Event()
 
     async def clear(self) -> None:
-        self._event = trio.Event()
+        if self._event.is_set():
+            # Only replace a set event, anything waiting on an unset
+            # event would otherwise never be woken.
+            self._event = trio.Event()
 
     async def wait(self) -> None:
         await self._event.wait()
